@@ -303,6 +303,23 @@ static void sc_open(char **av, int ac)
 		}
 		if (st == KDUMP_OK)
 			compare_read(ctx, path, KDUMP_MACHPHYSADDR, 0, 64, 0, "after open");
+		/* the file set directory must be well-formed whatever happened: no attribute twice
+		 * (the iteration shows the attributes that have a value) */
+		{
+			kdump_attr_iter_t it; kdump_status s2; int nfd = 0, nname = 0, nother = 0;
+			LIB(s2 = kdump_attr_iter_start(ctx, "file.set.0", &it));
+			if (s2 == KDUMP_OK) {
+				while (it.key) {
+					if (!strcmp(it.key, "fd")) ++nfd; else if (!strcmp(it.key, "name")) ++nname; else ++nother;
+					LIB(s2 = kdump_attr_iter_next(ctx, &it));
+					if (s2 != KDUMP_OK) break;
+				}
+				LIB(kdump_attr_iter_end(ctx, &it));
+				if (nfd > 1 || nname > 1)
+					surv_fail("file.set.0 has %d fd and %d name attributes", nfd, nname);
+			} else
+				LIB(kdump_clear_err(ctx));
+		}
 		LIB(kdump_free(ctx));
 	} else
 		surv_fail("skipped: lock still held");
@@ -525,6 +542,48 @@ static void sc_vmcoreinfo(char **av, int ac)
 	if (!held_at_return) {
 		note_refs(ctx, "vmcoreinfo calls");
 		compare_read(ctx, path, KDUMP_MACHPHYSADDR, 0, 64, 0, "read after vmcoreinfo");
+		LIB(kdump_free(ctx));
+	}
+	close(fd);
+}
+
+/* utsname <path> <rootpgt>: setting the OS type on a dump that has no utsname of its own but a
+ * VMCOREINFO with SYMBOL(init_uts_ns): the post-set hook resolves the symbol through the
+ * translation callbacks, sets the translation up and reads struct new_utsname through it */
+static void sc_utsname(char **av, int ac)
+{
+	static const char vmci[] = "PAGESIZE=4096\nSYMBOL(init_uts_ns)=fc\n";
+	const char *path = av[0];
+	int fd;
+	kdump_ctx_t *ctx = open_ctx(path, &fd);
+	kdump_status st, st2 = KDUMP_OK;
+	kdump_attr_t attr;
+	kdump_blob_t *blob;
+	const char *rel = NULL;
+	set_xlat(ctx, argull(av, 1));
+	LIB(blob = kdump_blob_new_dup(vmci, sizeof vmci - 1));
+	if (!blob) _exit(4);
+	attr.type = KDUMP_BLOB; attr.val.blob = blob;
+	LIB(st = kdump_set_attr(ctx, "linux.vmcoreinfo.raw", &attr));      /* takes the reference */
+	if (st != KDUMP_OK) { fprintf(stderr, "setup: vmcoreinfo: %s\n", kdump_get_err(ctx)); _exit(4); }
+	name_ctx_locks(ctx);
+	win_open();
+	st = CALL("set addrxlat.ostype", kdump_set_string_attr(ctx, "addrxlat.ostype", "linux"));
+	note_held();
+	win_close();
+	if (!held_at_return) {
+		note_refs(ctx, "set addrxlat.ostype");
+		LIB(st2 = kdump_get_string_attr(ctx, "linux.uts.release", &rel));
+		out(" shape=st:%d;uts:%s", (int)st, st2 == KDUMP_OK ? rel : "-");
+		if (st == KDUMP_OK && (st2 != KDUMP_OK || strcmp(rel, "5.6.7-res")))
+			surv_fail("addrxlat.ostype was set but linux.uts.release is %s", st2 == KDUMP_OK ? rel : "unset");
+		if (st != KDUMP_OK) {
+			/* the same call again: reported, not judged (see design.d/C18.md) */
+			LIB(st = kdump_set_string_attr(ctx, "addrxlat.ostype", "linux"));
+			LIB(st2 = kdump_get_string_attr(ctx, "linux.uts.release", &rel));
+			out(";retry:%d/%d", (int)st, (int)st2);
+			LIB(kdump_clear_err(ctx));
+		}
 		LIB(kdump_free(ctx));
 	}
 	close(fd);
@@ -1130,7 +1189,7 @@ static void sc_wb_sys_meth(char **av, int ac)
 static const struct { const char *name; void (*fn)(char **, int); int minargs; } scenarios[] = {
 	{ "new", sc_new, 0 }, { "clone", sc_clone, 2 }, { "open", sc_open, 1 }, { "reopen", sc_reopen, 1 }, { "reopen2", sc_reopen2, 2 },
 	{ "read", sc_read, 4 }, { "readstr", sc_readstr, 3 }, { "attrs", sc_attrs, 1 },
-	{ "pagemap", sc_pagemap, 1 }, { "vmcoreinfo", sc_vmcoreinfo, 1 }, { "free", sc_free, 1 }, { "getxlat", sc_getxlat, 1 },
+	{ "pagemap", sc_pagemap, 1 }, { "vmcoreinfo", sc_vmcoreinfo, 1 }, { "free", sc_free, 1 }, { "getxlat", sc_getxlat, 1 }, { "utsname", sc_utsname, 2 },
 	{ "wb_xlat", sc_wb_xlat, 1 }, { "wb_fcache_new", sc_wb_fcache_new, 3 },
 	{ "wb_cache_alloc", sc_wb_cache_alloc, 2 }, { "wb_chunk", sc_wb_chunk, 3 }, { "wb_pfn_regions", sc_wb_pfn_regions, 1 },
 	{ "wb_dict", sc_wb_dict, 1 }, { "wb_create_path", sc_wb_create_path, 1 },
